@@ -54,6 +54,11 @@ def variants(p):
                      lambda seg: _vals(R.gv_fixed(seg, mu, va)), 2, family="GV"))
     V.append(Variant("GV/scalar2", lambda: GaussianVarCost(param=(0.5, 4.0)),
                      lambda seg: _vals(R.gv_fixed(seg, [Fr(1, 2)], [Fr(4)])), 2, family="GV"))
+    # mixed shapes: a scalar mean with per-column variances, and per-column means with a scalar variance
+    V.append(Variant("GV/mean-scalar-var-percol", lambda: GaussianVarCost(param=(0.5, np.array(fl(va)))),
+                     lambda seg: _vals(R.gv_fixed(seg, [Fr(1, 2)], va)), 2, family="GV"))
+    V.append(Variant("GV/mean-percol-var-scalar", lambda: GaussianVarCost(param=(np.array(fl(mu)), 4.0)),
+                     lambda seg: _vals(R.gv_fixed(seg, mu, [Fr(4)])), 2, family="GV"))
     V.append(Variant("Cov/opt", lambda: GaussianCovCost(), lambda seg: [R.cov_optim(seg)], p + 1, True, optimal=True, family="Cov"))
     eye = [[Fr(int(i == j)) for j in range(p)] for i in range(p)]
     V.append(Variant("Cov/scalar", lambda: GaussianCovCost(param=(0.0, 1.0)),
@@ -62,4 +67,10 @@ def variants(p):
                      lambda seg: _vals([R.cov_fixed(seg, mu, diag)]), p + 1, True, family="Cov"))
     V.append(Variant("Cov/spd", lambda: GaussianCovCost(param=(np.array(fl(mu)), np.array([fl(r) for r in spd]))),
                      lambda seg: _vals([R.cov_fixed(seg, mu, spd)]), p + 1, True, family="Cov"))
+    # mixed shapes: a scalar mean with a full covariance matrix, and a per-column mean with a scalar (identity-scaled) covariance
+    V.append(Variant("Cov/mean-scalar-cov-matrix", lambda: GaussianCovCost(param=(0.5, np.array([fl(r) for r in spd]))),
+                     lambda seg: _vals([R.cov_fixed(seg, [Fr(1, 2)], spd)]), p + 1, True, family="Cov"))
+    two_eye = [[Fr(2 * int(i == j)) for j in range(p)] for i in range(p)]
+    V.append(Variant("Cov/mean-percol-cov-scalar", lambda: GaussianCovCost(param=(np.array(fl(mu)), 2.0)),
+                     lambda seg: _vals([R.cov_fixed(seg, mu, two_eye)]), p + 1, True, family="Cov"))
     return V
